@@ -1,12 +1,232 @@
 package main
 
-import "fmt"
+// Synthetic encrypted PS3 disc images (redump / 3k3y) and the reference
+// transformations used to classify what a view returns.
+//
+// Trusted base: crypto/aes and a hand-written CBC (checked against the NIST
+// SP 800-38A F.2.1 vector at start-up).  Which sectors are encrypted, which
+// key applies, what must read as zero: none of that is decided here - the
+// harness only reports, segment by segment, which candidate the returned
+// bytes equal.
 
-// encSpec describes an encrypted (redump / 3k3y) image to synthesise.
+import (
+	"bytes"
+	"crypto/aes"
+	"encoding/binary"
+	"encoding/hex"
+	"fmt"
+	"os"
+)
+
+const encSector = 2048
+
+// fixed key / IV that turn a disc key ("data1") into the image key (public constants of the format)
+var (
+	encKeyData1 = []byte{0x38, 0x0b, 0xcf, 0x0b, 0x53, 0x45, 0x5b, 0x3c, 0x78, 0x17, 0xab, 0x4f, 0xa3, 0xba, 0x90, 0xed}
+	encIvData1  = []byte{0x69, 0x47, 0x47, 0x72, 0xaf, 0x6f, 0xda, 0xb3, 0x42, 0x74, 0x3a, 0xef, 0xaa, 0x18, 0x62, 0x87}
+	wm3k3yEnc   = []byte{0x44, 0x6E, 0x63, 0x72, 0x79, 0x70, 0x74, 0x65, 0x64, 0x20, 0x33, 0x4B, 0x20, 0x42, 0x4C, 0x44}
+	wm3k3yDec   = []byte{0x45, 0x6E, 0x63, 0x72, 0x79, 0x70, 0x74, 0x65, 0x64, 0x20, 0x33, 0x4B, 0x20, 0x42, 0x4C, 0x44}
+)
+
+func cbcEncrypt(key, iv, data []byte) []byte {
+	blk, err := aes.NewCipher(key)
+	if err != nil {
+		panic(err)
+	}
+	out := make([]byte, len(data))
+	prev := append([]byte{}, iv...)
+	for i := 0; i+16 <= len(data); i += 16 {
+		var x [16]byte
+		for j := 0; j < 16; j++ {
+			x[j] = data[i+j] ^ prev[j]
+		}
+		blk.Encrypt(out[i:i+16], x[:])
+		prev = out[i : i+16]
+	}
+	return out
+}
+
+func cbcDecrypt(key, iv, data []byte) []byte {
+	blk, err := aes.NewCipher(key)
+	if err != nil {
+		panic(err)
+	}
+	out := make([]byte, len(data))
+	prev := append([]byte{}, iv...)
+	for i := 0; i+16 <= len(data); i += 16 {
+		var x [16]byte
+		blk.Decrypt(x[:], data[i:i+16])
+		for j := 0; j < 16; j++ {
+			out[i+j] = x[j] ^ prev[j]
+		}
+		prev = data[i : i+16]
+	}
+	return out
+}
+
+func init() {
+	// NIST SP 800-38A F.2.1 CBC-AES128.Encrypt, first two blocks
+	key, _ := hex.DecodeString("2b7e151628aed2a6abf7158809cf4f3c")
+	iv, _ := hex.DecodeString("000102030405060708090a0b0c0d0e0f")
+	pt, _ := hex.DecodeString("6bc1bee22e409f96e93d7e117393172aae2d8a571e03ac9c9eb76fac45af8e51")
+	ct, _ := hex.DecodeString("7649abac8119b246cee98e9b12e9197d5086cb9b507219ee95db113a917678b2")
+	if !bytes.Equal(cbcEncrypt(key, iv, pt), ct) || !bytes.Equal(cbcDecrypt(key, iv, ct), pt) {
+		panic("reference AES-CBC does not reproduce the NIST vector")
+	}
+}
+
+func imageKey(discKey []byte) []byte { return cbcEncrypt(encKeyData1, encIvData1, discKey) }
+
+func sectorIV(sector int64) []byte {
+	iv := make([]byte, 16)
+	binary.BigEndian.PutUint32(iv[12:], uint32(sector))
+	return iv
+}
+
+// encSpec: how to synthesise an image file.
 type encSpec struct {
-	Kind string `json:"kind"`
+	Kind      string     `json:"kind"`              // redump | 3k3y-enc | 3k3y-dec | plain
+	Key       string     `json:"key"`               // hex disc key the encrypted sectors are encrypted under
+	Regions   [][2]int64 `json:"regions"`           // the table written to sector 0: plain regions <start, end>
+	RawCount  *int64     `json:"rawCount"`          // override of the count field (malformed tables)
+	Sectors   int64      `json:"sectors"`           // image length in sectors
+	ExtraLen  int64      `json:"extraLen"`          // additional bytes after the last full sector
+	EncFrom   [][2]int64 `json:"encFrom,omitempty"` // sector ranges actually stored encrypted (default: gaps between Regions)
+	Embedded  string     `json:"embedded"`          // 3k3y: hex key stored at 0xF80 (default: Key)
+	PlainName string     `json:"plainName"`         // name of the plaintext source
+}
+
+type encImage struct {
+	spec  encSpec
+	plain []byte // the disc as it is meant to be read (with region table and 3k3y area as stored)
+	raw   []byte // the file on disk
+	key   []byte
+}
+
+func buildEncImage(sp encSpec) (*encImage, error) {
+	size := sp.Sectors*encSector + sp.ExtraLen
+	if size <= 0 || size > 64<<20 {
+		return nil, fmt.Errorf("image size %d", size)
+	}
+	src := &patSource{name: sp.PlainName, id: srcID(sp.PlainName), size: size}
+	plain := make([]byte, size)
+	src.ReadAt(plain, 0)
+	// region table
+	hdr := make([]byte, 8+8*len(sp.Regions))
+	cnt := int64(len(sp.Regions))
+	if sp.RawCount != nil {
+		cnt = *sp.RawCount
+	}
+	binary.BigEndian.PutUint32(hdr[0:], uint32(cnt))
+	for i, r := range sp.Regions {
+		binary.BigEndian.PutUint32(hdr[8+8*i:], uint32(r[0]))
+		binary.BigEndian.PutUint32(hdr[12+8*i:], uint32(r[1]))
+	}
+	copy(plain, hdr)
+	key, err := hex.DecodeString(sp.Key)
+	if err != nil || (len(key) != 16 && sp.Kind != "plain") {
+		return nil, fmt.Errorf("bad key %q", sp.Key)
+	}
+	if sp.Kind == "3k3y-enc" || sp.Kind == "3k3y-dec" {
+		if size >= 0xF80+16 {
+			wm := wm3k3yEnc
+			if sp.Kind == "3k3y-dec" {
+				wm = wm3k3yDec
+			}
+			copy(plain[0xF70:], wm)
+			emb := key
+			if sp.Embedded != "" {
+				emb, _ = hex.DecodeString(sp.Embedded)
+			}
+			copy(plain[0xF80:], emb)
+		}
+	}
+	raw := append([]byte{}, plain...)
+	enc := sp.EncFrom
+	if enc == nil && sp.Kind != "plain" && sp.Kind != "3k3y-dec" {
+		for i := 1; i < len(sp.Regions); i++ {
+			enc = append(enc, [2]int64{sp.Regions[i-1][1], sp.Regions[i][0]})
+		}
+	}
+	if len(key) == 16 {
+		ik := imageKey(key)
+		for _, r := range enc {
+			for s := r[0]; s < r[1] && (s+1)*encSector <= size; s++ {
+				copy(raw[s*encSector:], cbcEncrypt(ik, sectorIV(s), plain[s*encSector:(s+1)*encSector]))
+			}
+		}
+	}
+	return &encImage{spec: sp, plain: plain, raw: raw, key: key}, nil
 }
 
 func (w *world) writeEncImage(fp string, n nodeJ) error {
-	return fmt.Errorf("encrypted images: not built yet")
+	img, err := buildEncImage(*n.Enc)
+	if err != nil {
+		return err
+	}
+	w.reg.add(&memSource{name: n.Cid, data: img.raw})
+	w.reg.add(&memSource{name: n.Enc.PlainName, data: img.plain})
+	masked := append([]byte{}, img.plain...)
+	for i := 0xF70; i < 0x1070 && i < len(masked); i++ {
+		masked[i] = 0
+	}
+	w.reg.add(&memSource{name: n.Enc.PlainName + "~masked", data: masked})
+	rawMasked := append([]byte{}, img.raw...)
+	for i := 0xF70; i < 0x1070 && i < len(rawMasked); i++ {
+		rawMasked[i] = 0
+	}
+	w.reg.add(&memSource{name: n.Cid + "~masked", data: rawMasked})
+	if w.encImages == nil {
+		w.encImages = map[string]*encImage{}
+	}
+	w.encImages[fp] = img
+	return os.WriteFile(fp, img.raw, 0o644)
+}
+
+// classify describes got (claimed to be the bytes [at, at+len(got)) of a view of
+// raw) segment by segment: segments end at sector boundaries and at the given
+// cuts.  Classes: "raw" (= stored bytes), "zero", "dec:<keyname>" (= sector-wise
+// AES-CBC decryption of the stored bytes under that candidate key).  A segment
+// may carry several classes when candidates coincide; none = unexplained.
+func classify(raw []byte, at int64, got []byte, cuts []int64, keys map[string][]byte) []map[string]interface{} {
+	out := []map[string]interface{}{}
+	end := at + int64(len(got))
+	bset := map[int64]bool{}
+	for s := at / encSector * encSector; s <= end; s += encSector {
+		bset[s] = true
+	}
+	for _, c := range cuts {
+		bset[c] = true
+	}
+	pos0 := at
+	for pos0 < end {
+		next := end
+		for b := range bset {
+			if b > pos0 && b < next {
+				next = b
+			}
+		}
+		seg := got[pos0-at : next-at]
+		classes := []string{}
+		if next <= int64(len(raw)) {
+			if bytes.Equal(seg, raw[pos0:next]) {
+				classes = append(classes, "raw")
+			}
+			if allZero(seg) {
+				classes = append(classes, "zero")
+			}
+			s := pos0 / encSector
+			if (s+1)*encSector <= int64(len(raw)) {
+				for name, k := range keys {
+					dec := cbcDecrypt(imageKey(k), sectorIV(s), raw[s*encSector:(s+1)*encSector])
+					if bytes.Equal(seg, dec[pos0-s*encSector:next-s*encSector]) {
+						classes = append(classes, "dec:"+name)
+					}
+				}
+			}
+		}
+		out = append(out, map[string]interface{}{"from": pos(pos0), "to": pos(next), "sector": pos0 / encSector, "classes": classes})
+		pos0 = next
+	}
+	return out
 }
